@@ -611,13 +611,14 @@ def proof_stage(rep, pid, make_targets, props_rel, searcher=None, timeout=1500, 
     failing = re.findall(r'File "([^"]+)", line (\d+)', log)
     n = len(re.findall(r"^\s*Theorem\s", open(os.path.join(COQ, props_rel)).read(), re.M))
     rep.add_obligations(n, 0)
-    before = len(rep.violations) + len(rep.known)
+    before = len(rep.violations)
     if searcher:
         searcher(log)
 
     def finalize():
-        """emit the no-failing-input-found violation unless a concrete one was reported meanwhile"""
-        if len(rep.violations) + len(rep.known) == before:
+        """emit the no-failing-input-found violation unless a concrete one was reported meanwhile
+        (a known finding is not a concrete explanation of a NEW broken obligation)"""
+        if len(rep.violations) == before:
             rep.violation("proof obligation no longer checks: %s" % (failing[:3],),
                           {"failing": failing[:10], "log_tail": log[-3000:], "props": props_rel},
                           no_input=True)
